@@ -29,6 +29,20 @@ def defined_names(text, synth):
         if m: out.append((m.group(1) if m.group(1) in ("strand", "structure") else "sequence", m.group(2)))
     return out
 
+def include_race(case):
+    """some template is provided by two include directories: their order decides which one is compiled"""
+    g = case["_gen"]; incs = list(g.includes)
+    for (d, name) in g.items:
+        if d in incs and any((e, name) in g.items for e in incs[incs.index(d) + 1:]):
+            return True
+    return False
+
+def gen_target(rng, want_race):
+    for _ in range(200):
+        t = c02.gen_case(rng)
+        if not want_race or include_race(t): return t
+    return t
+
 def write_project(root, files):
     for n, t in files.items():
         p = os.path.join(root, n); os.makedirs(os.path.dirname(p), exist_ok=True)
@@ -54,7 +68,8 @@ def run(tier, seed, build):
         model_reqs = []; model_where = []
         records = []
         for ti in range(ntargets):
-            target = c02.gen_case(rng)
+            target = gen_target(rng, want_race=(ti % 3 == 0))     # every third target: an import provided by two include directories
+            dist["include_race"] = dist.get("include_race", 0) + (1 if include_race(target) else 0)
             others = [c02.gen_case(rng) for _ in range(3)]
             troot = os.path.join(wd, "t%d" % ti, "pT")
             write_project(troot, target["files"])
@@ -133,7 +148,7 @@ def run(tier, seed, build):
     finally:
         shutil.rmtree(wd, ignore_errors=True)
     return {"evaluations": dist["compilations"], "distinct_nontrivial": len(nontrivial),
-            "rule": "%d target projects (system libraries as C02, half with a fixed-sequence file using S/N over degenerate constraints) x hash seeds %r x {0, 2(+)} earlier compilations of other projects with the same relative file names in the same process x invocation from the project root / its parent x {pil, des}; outputs must be identical modulo the timestamp line and a consistent renumbering of anonymous names, names within an output unique; one run per target compared with the model. Non-trivial = (target, back-end) that compiles" % (ntargets, seeds),
+            "rule": "%d target projects (system libraries as C02, half with a fixed-sequence file using S/N over degenerate constraints) x hash seeds %r x {0, 2(+)} earlier compilations of other projects with the same relative file names in the same process x invocation from the project root / its parent x {pil, des}; every third target has an import provided by two include directories (their order must decide); outputs must be identical modulo the timestamp line and a consistent renumbering of anonymous names, names within an output unique; one run per target compared with the model. Non-trivial = (target, back-end) that compiles" % (ntargets, seeds),
             "samples": samples, "distribution": dist, "failures": failures}
 
 def replay(path):
